@@ -212,6 +212,21 @@ Definition reconstruct_steps (p : wproxy) (s : Z) : Z :=
       if tot =? te then (tot + 1) * len (wp_frags p) else 0
   end.
 
+(* bytes copied into the reassembly buffer `data` of that loop (Vec::new() grown by
+   extend_from_slice): the payloads of the buffered fragments of the sample whose starting number is
+   in 0..=total — what is RECEIVED, never the announced data_size *)
+Definition reconstruct_alloc (p : wproxy) (s : Z) : Z :=
+  match find (fun f => fr_sn f =? s) (wp_frags p) with
+  | None => 0
+  | Some f0 =>
+      if fr_size f0 =? 0 then 0 else
+      let te := fr_dsize f0 / fr_size f0 + (if fr_dsize f0 mod fr_size f0 =? 0 then 0 else 1) in
+      let tot := frag_sum (frags_of (wp_frags p) s) in
+      if tot =? te
+      then sumZ (map fr_len (filter (fun f => (0 <=? fr_start f) && (fr_start f <=? tot)) (frags_of (wp_frags p) s)))
+      else 0
+  end.
+
 (* RtpsStatefulReader::on_data_submessage on the matching proxy *)
 Definition on_data_proxy (rel : bool) (s : Z) (p : wproxy) : res wproxy :=
   e <- expected p ;;
@@ -230,6 +245,9 @@ Definition on_frag_proxy (rel : bool) (f : frag) (p : wproxy) : res wproxy :=
   if snd r then on_data_proxy rel (fr_sn f) (fst r) else Ok (fst r).
 Definition frag_steps (rel : bool) (f : frag) (p : wproxy) : Z :=
   match frag_pushed rel f p with Ok p1 => reconstruct_steps p1 (fr_sn f) | _ => 0 end.
+
+Definition frag_alloc (rel : bool) (f : frag) (p : wproxy) : Z :=
+  match frag_pushed rel f p with Ok p1 => reconstruct_alloc p1 (fr_sn f) | _ => 0 end.
 
 (* handle_heartbeat_submessage on the matching proxy *)
 Definition hb_proxy (reid : list Z) (final live : bool) (first last count : Z) (p : wproxy) : res (wproxy * outs) :=
@@ -444,6 +462,25 @@ Fixpoint subs_steps (rs : rstate) (st : pstate) (l : list psub) : Z :=
 Definition datagram_steps (st : pstate) (bytes : list Z) : Z :=
   match parse_message bytes with Ok (h, l) => subs_steps (rs_init h) st l | _ => 0 end.
 
+(* allocation of the handlers that depends on wire values: the reassembly buffers (everything else
+   the handlers allocate is a reply of fixed size or a copy of the participant's own history) *)
+Definition sub_alloc (rs : rstate) (st : pstate) (m : psub) : Z :=
+  match m with
+  | DataFrag _ _ _ _ wid s fs fc fz ds _ payload =>
+      if (fz =? 0) || (s =? i64_max) || (len payload + 1 <? fc) then 0 else
+      sumZ (map (fun r => proxy_steps (rs_src rs ++ wid) (frag_alloc (sr_rel r) (mk_frag s fs fc fz ds (len payload)))
+                                      (sr_proxies r)) (ps_readers st))
+  | _ => 0
+  end.
+Fixpoint subs_alloc (rs : rstate) (st : pstate) (l : list psub) : Z :=
+  match l with
+  | [] => 0
+  | m :: t => sub_alloc rs st m +
+              match handle_sub rs st m with Ok (rs1, st1, _) => subs_alloc rs1 st1 t | _ => 0 end
+  end.
+Definition datagram_alloc (st : pstate) (bytes : list Z) : Z :=
+  match parse_message bytes with Ok (h, l) => subs_alloc (rs_init h) st l | _ => 0 end.
+
 (* -------------------------------------------------------------- the invariant *)
 Definition frag_ok (f : frag) : Prop := 0 <= fr_count f <= fr_len f + 1 /\ fr_size f <> 0 /\ 0 <= fr_len f.
 (* bytes of buffered fragments (+1 per fragment) *)
@@ -513,6 +550,7 @@ Definition total_frag_bytes (ds : list (list Z)) : Z := sumZ (map (fun d => frag
 
 (* the bound claimed for the sender-chosen work of one datagram *)
 Definition steps_bound (nsubs nreaders C : Z) : Z := nsubs * nreaders * ((C + 1) * (C + 1)).
+Definition alloc_bound (nsubs nreaders C : Z) : Z := nsubs * nreaders * C.
 
 (* ------------------------------------------------- a concrete participant state
    one user-defined reliable reader matched with the writer 00000002 of participant S
@@ -545,3 +583,6 @@ Definition former_witnesses : list (list Z) :=
    w_hb_min_final; w_data_1; w_nackfrag_max; w_hb_first_max; w_data_max; w_data_3; w_frag_flood].
 (* 40 honest DATA_FRAGs (fragment size 1) of a 40-byte sample, in one datagram *)
 Definition w_honest_frags : list Z := [82;84;80;83;2;4;1;20;5;6;7;8;1;2;3;4;2;0;0;0;22;1;33;0;0;0;28;0;0;0;0;7;0;0;0;2;0;0;0;0;1;0;0;0;1;0;0;0;1;0;1;0;40;0;0;0;120;22;1;33;0;0;0;28;0;0;0;0;7;0;0;0;2;0;0;0;0;1;0;0;0;2;0;0;0;1;0;1;0;40;0;0;0;120;22;1;33;0;0;0;28;0;0;0;0;7;0;0;0;2;0;0;0;0;1;0;0;0;3;0;0;0;1;0;1;0;40;0;0;0;120;22;1;33;0;0;0;28;0;0;0;0;7;0;0;0;2;0;0;0;0;1;0;0;0;4;0;0;0;1;0;1;0;40;0;0;0;120;22;1;33;0;0;0;28;0;0;0;0;7;0;0;0;2;0;0;0;0;1;0;0;0;5;0;0;0;1;0;1;0;40;0;0;0;120;22;1;33;0;0;0;28;0;0;0;0;7;0;0;0;2;0;0;0;0;1;0;0;0;6;0;0;0;1;0;1;0;40;0;0;0;120;22;1;33;0;0;0;28;0;0;0;0;7;0;0;0;2;0;0;0;0;1;0;0;0;7;0;0;0;1;0;1;0;40;0;0;0;120;22;1;33;0;0;0;28;0;0;0;0;7;0;0;0;2;0;0;0;0;1;0;0;0;8;0;0;0;1;0;1;0;40;0;0;0;120;22;1;33;0;0;0;28;0;0;0;0;7;0;0;0;2;0;0;0;0;1;0;0;0;9;0;0;0;1;0;1;0;40;0;0;0;120;22;1;33;0;0;0;28;0;0;0;0;7;0;0;0;2;0;0;0;0;1;0;0;0;10;0;0;0;1;0;1;0;40;0;0;0;120;22;1;33;0;0;0;28;0;0;0;0;7;0;0;0;2;0;0;0;0;1;0;0;0;11;0;0;0;1;0;1;0;40;0;0;0;120;22;1;33;0;0;0;28;0;0;0;0;7;0;0;0;2;0;0;0;0;1;0;0;0;12;0;0;0;1;0;1;0;40;0;0;0;120;22;1;33;0;0;0;28;0;0;0;0;7;0;0;0;2;0;0;0;0;1;0;0;0;13;0;0;0;1;0;1;0;40;0;0;0;120;22;1;33;0;0;0;28;0;0;0;0;7;0;0;0;2;0;0;0;0;1;0;0;0;14;0;0;0;1;0;1;0;40;0;0;0;120;22;1;33;0;0;0;28;0;0;0;0;7;0;0;0;2;0;0;0;0;1;0;0;0;15;0;0;0;1;0;1;0;40;0;0;0;120;22;1;33;0;0;0;28;0;0;0;0;7;0;0;0;2;0;0;0;0;1;0;0;0;16;0;0;0;1;0;1;0;40;0;0;0;120;22;1;33;0;0;0;28;0;0;0;0;7;0;0;0;2;0;0;0;0;1;0;0;0;17;0;0;0;1;0;1;0;40;0;0;0;120;22;1;33;0;0;0;28;0;0;0;0;7;0;0;0;2;0;0;0;0;1;0;0;0;18;0;0;0;1;0;1;0;40;0;0;0;120;22;1;33;0;0;0;28;0;0;0;0;7;0;0;0;2;0;0;0;0;1;0;0;0;19;0;0;0;1;0;1;0;40;0;0;0;120;22;1;33;0;0;0;28;0;0;0;0;7;0;0;0;2;0;0;0;0;1;0;0;0;20;0;0;0;1;0;1;0;40;0;0;0;120;22;1;33;0;0;0;28;0;0;0;0;7;0;0;0;2;0;0;0;0;1;0;0;0;21;0;0;0;1;0;1;0;40;0;0;0;120;22;1;33;0;0;0;28;0;0;0;0;7;0;0;0;2;0;0;0;0;1;0;0;0;22;0;0;0;1;0;1;0;40;0;0;0;120;22;1;33;0;0;0;28;0;0;0;0;7;0;0;0;2;0;0;0;0;1;0;0;0;23;0;0;0;1;0;1;0;40;0;0;0;120;22;1;33;0;0;0;28;0;0;0;0;7;0;0;0;2;0;0;0;0;1;0;0;0;24;0;0;0;1;0;1;0;40;0;0;0;120;22;1;33;0;0;0;28;0;0;0;0;7;0;0;0;2;0;0;0;0;1;0;0;0;25;0;0;0;1;0;1;0;40;0;0;0;120;22;1;33;0;0;0;28;0;0;0;0;7;0;0;0;2;0;0;0;0;1;0;0;0;26;0;0;0;1;0;1;0;40;0;0;0;120;22;1;33;0;0;0;28;0;0;0;0;7;0;0;0;2;0;0;0;0;1;0;0;0;27;0;0;0;1;0;1;0;40;0;0;0;120;22;1;33;0;0;0;28;0;0;0;0;7;0;0;0;2;0;0;0;0;1;0;0;0;28;0;0;0;1;0;1;0;40;0;0;0;120;22;1;33;0;0;0;28;0;0;0;0;7;0;0;0;2;0;0;0;0;1;0;0;0;29;0;0;0;1;0;1;0;40;0;0;0;120;22;1;33;0;0;0;28;0;0;0;0;7;0;0;0;2;0;0;0;0;1;0;0;0;30;0;0;0;1;0;1;0;40;0;0;0;120;22;1;33;0;0;0;28;0;0;0;0;7;0;0;0;2;0;0;0;0;1;0;0;0;31;0;0;0;1;0;1;0;40;0;0;0;120;22;1;33;0;0;0;28;0;0;0;0;7;0;0;0;2;0;0;0;0;1;0;0;0;32;0;0;0;1;0;1;0;40;0;0;0;120;22;1;33;0;0;0;28;0;0;0;0;7;0;0;0;2;0;0;0;0;1;0;0;0;33;0;0;0;1;0;1;0;40;0;0;0;120;22;1;33;0;0;0;28;0;0;0;0;7;0;0;0;2;0;0;0;0;1;0;0;0;34;0;0;0;1;0;1;0;40;0;0;0;120;22;1;33;0;0;0;28;0;0;0;0;7;0;0;0;2;0;0;0;0;1;0;0;0;35;0;0;0;1;0;1;0;40;0;0;0;120;22;1;33;0;0;0;28;0;0;0;0;7;0;0;0;2;0;0;0;0;1;0;0;0;36;0;0;0;1;0;1;0;40;0;0;0;120;22;1;33;0;0;0;28;0;0;0;0;7;0;0;0;2;0;0;0;0;1;0;0;0;37;0;0;0;1;0;1;0;40;0;0;0;120;22;1;33;0;0;0;28;0;0;0;0;7;0;0;0;2;0;0;0;0;1;0;0;0;38;0;0;0;1;0;1;0;40;0;0;0;120;22;1;33;0;0;0;28;0;0;0;0;7;0;0;0;2;0;0;0;0;1;0;0;0;39;0;0;0;1;0;1;0;40;0;0;0;120;22;1;33;0;0;0;28;0;0;0;0;7;0;0;0;2;0;0;0;0;1;0;0;0;40;0;0;0;1;0;1;0;40;0;0;0;120].
+(* a consistent forged DATA_FRAG: 1000 payload bytes, fragmentsInSubmessage 1000, fragmentSize 65535,
+   dataSize 65 535 000 (completeness test passes: 1000 = ceil(65535000 / 65535)) *)
+Definition w_forged_frag : list Z := [82;84;80;83;2;4;1;20;5;6;7;8;1;2;3;4;2;0;0;0;22;1;8;4;0;0;28;0;0;0;0;7;0;0;0;2;0;0;0;0;1;0;0;0;1;0;0;0;232;3;255;255;24;252;231;3;0;0;0;0;0;0;0;0;0;0;0;0;0;0;0;0;0;0;0;0;0;0;0;0;0;0;0;0;0;0;0;0;0;0;0;0;0;0;0;0;0;0;0;0;0;0;0;0;0;0;0;0;0;0;0;0;0;0;0;0;0;0;0;0;0;0;0;0;0;0;0;0;0;0;0;0;0;0;0;0;0;0;0;0;0;0;0;0;0;0;0;0;0;0;0;0;0;0;0;0;0;0;0;0;0;0;0;0;0;0;0;0;0;0;0;0;0;0;0;0;0;0;0;0;0;0;0;0;0;0;0;0;0;0;0;0;0;0;0;0;0;0;0;0;0;0;0;0;0;0;0;0;0;0;0;0;0;0;0;0;0;0;0;0;0;0;0;0;0;0;0;0;0;0;0;0;0;0;0;0;0;0;0;0;0;0;0;0;0;0;0;0;0;0;0;0;0;0;0;0;0;0;0;0;0;0;0;0;0;0;0;0;0;0;0;0;0;0;0;0;0;0;0;0;0;0;0;0;0;0;0;0;0;0;0;0;0;0;0;0;0;0;0;0;0;0;0;0;0;0;0;0;0;0;0;0;0;0;0;0;0;0;0;0;0;0;0;0;0;0;0;0;0;0;0;0;0;0;0;0;0;0;0;0;0;0;0;0;0;0;0;0;0;0;0;0;0;0;0;0;0;0;0;0;0;0;0;0;0;0;0;0;0;0;0;0;0;0;0;0;0;0;0;0;0;0;0;0;0;0;0;0;0;0;0;0;0;0;0;0;0;0;0;0;0;0;0;0;0;0;0;0;0;0;0;0;0;0;0;0;0;0;0;0;0;0;0;0;0;0;0;0;0;0;0;0;0;0;0;0;0;0;0;0;0;0;0;0;0;0;0;0;0;0;0;0;0;0;0;0;0;0;0;0;0;0;0;0;0;0;0;0;0;0;0;0;0;0;0;0;0;0;0;0;0;0;0;0;0;0;0;0;0;0;0;0;0;0;0;0;0;0;0;0;0;0;0;0;0;0;0;0;0;0;0;0;0;0;0;0;0;0;0;0;0;0;0;0;0;0;0;0;0;0;0;0;0;0;0;0;0;0;0;0;0;0;0;0;0;0;0;0;0;0;0;0;0;0;0;0;0;0;0;0;0;0;0;0;0;0;0;0;0;0;0;0;0;0;0;0;0;0;0;0;0;0;0;0;0;0;0;0;0;0;0;0;0;0;0;0;0;0;0;0;0;0;0;0;0;0;0;0;0;0;0;0;0;0;0;0;0;0;0;0;0;0;0;0;0;0;0;0;0;0;0;0;0;0;0;0;0;0;0;0;0;0;0;0;0;0;0;0;0;0;0;0;0;0;0;0;0;0;0;0;0;0;0;0;0;0;0;0;0;0;0;0;0;0;0;0;0;0;0;0;0;0;0;0;0;0;0;0;0;0;0;0;0;0;0;0;0;0;0;0;0;0;0;0;0;0;0;0;0;0;0;0;0;0;0;0;0;0;0;0;0;0;0;0;0;0;0;0;0;0;0;0;0;0;0;0;0;0;0;0;0;0;0;0;0;0;0;0;0;0;0;0;0;0;0;0;0;0;0;0;0;0;0;0;0;0;0;0;0;0;0;0;0;0;0;0;0;0;0;0;0;0;0;0;0;0;0;0;0;0;0;0;0;0;0;0;0;0;0;0;0;0;0;0;0;0;0;0;0;0;0;0;0;0;0;0;0;0;0;0;0;0;0;0;0;0;0;0;0;0;0;0;0;0;0;0;0;0;0;0;0;0;0;0;0;0;0;0;0;0;0;0;0;0;0;0;0;0;0;0;0;0;0;0;0;0;0;0;0;0;0;0;0;0;0;0;0;0;0;0;0;0;0;0;0;0;0;0;0;0;0;0;0;0;0;0;0;0;0;0;0;0;0;0;0;0;0;0;0;0;0;0;0;0;0;0;0;0;0;0;0;0;0;0;0;0;0;0;0;0;0;0;0;0;0;0;0;0;0;0;0;0;0;0;0;0;0;0;0;0;0;0;0;0;0;0;0;0;0;0;0;0;0;0;0;0;0;0;0;0;0;0;0;0;0;0;0;0;0;0;0;0;0;0;0;0;0;0;0;0;0;0;0;0;0;0;0;0;0;0;0;0;0;0;0;0;0;0;0;0;0;0;0;0;0;0;0;0;0;0;0;0;0;0;0;0;0;0;0;0;0;0;0;0;0;0;0;0;0;0;0;0;0;0;0;0;0;0;0;0;0;0;0;0;0;0].
